@@ -404,8 +404,15 @@ var uris = map[string][]string{
 	"deep": {"/p", "/p/x?q=1", "/p/%2e%2e/z", "/pq/r"},
 }
 
-func serve(hs *httpserver.Server, hostHeader, uri string) (*httptest.ResponseRecorder, error) {
-	raw := "GET " + uri + " HTTP/1.1\r\nHost: " + hostHeader + "\r\nUser-Agent: c15\r\n\r\n"
+// serve sends one request as it would be read off the wire; abs selects the absolute-form
+// request-target (RFC 7230 5.3.2: "GET http://host/path HTTP/1.1"), which a server must accept
+// and which names the same host, path and query as the origin-form with that Host header.
+func serve(hs *httpserver.Server, hostHeader, uri string, abs bool) (*httptest.ResponseRecorder, error) {
+	target := uri
+	if abs {
+		target = "http://" + hostHeader + uri
+	}
+	raw := "GET " + target + " HTTP/1.1\r\nHost: " + hostHeader + "\r\nUser-Agent: c15\r\n\r\n"
 	req, err := http.ReadRequest(bufio.NewReader(strings.NewReader(raw)))
 	if err != nil {
 		return nil, err
@@ -534,18 +541,25 @@ func evaluate(c *ccase, fx fixtures, rnd *mrand.Rand, full bool) (fs []finding, 
 			fs = append(fs, finding{clause: "response", detail: "no-listener", what: fmt.Sprintf("no server for the HTTP port on bind host %q", pr.Bind), only: &pr})
 			return
 		}
-		rec, err := serve(hs, pr.Host, pr.URI)
-		if err != nil {
-			infra = fmt.Errorf("harness request %q %q: %v", pr.Host, pr.URI, err)
-			return
-		}
-		nreq++
-		ok, want, o := checkResponse(c, pr, rec)
-		if !ok {
-			pp := pr
-			fs = append(fs, finding{clause: "response", detail: fmt.Sprintf("host=%s/uri=%s", strings.Replace(pr.Host, ":"+strconv.Itoa(p.http), ":H", 1), pr.URI),
-				what: fmt.Sprintf("request Host=%q %s on the HTTP port (bind %q): expected %s; observed status=%d Location=%q X-Site=%q", pr.Host, pr.URI, pr.Bind, want, o.Status, o.Location, o.XSite),
-				expected: want, observed: o, only: &pp})
+		for _, abs := range []bool{false, true} {
+			rec, err := serve(hs, pr.Host, pr.URI, abs)
+			if err != nil {
+				infra = fmt.Errorf("harness request %q %q: %v", pr.Host, pr.URI, err)
+				return
+			}
+			nreq++
+			ok, want, o := checkResponse(c, pr, rec)
+			if !ok {
+				pp := pr
+				form, suffix := "origin-form", ""
+				if abs {
+					form, suffix = "absolute-form", "/form=abs"
+				}
+				fs = append(fs, finding{clause: "response", detail: fmt.Sprintf("host=%s/uri=%s%s", strings.Replace(pr.Host, ":"+strconv.Itoa(p.http), ":H", 1), pr.URI, suffix),
+					what: fmt.Sprintf("request Host=%q %s (%s request-target) on the HTTP port (bind %q): expected %s; observed status=%d Location=%q X-Site=%q", pr.Host, pr.URI, form, pr.Bind, want, o.Status, o.Location, o.XSite),
+					expected: want, observed: o, only: &pp})
+				break
+			}
 		}
 	}
 	if c.Only != nil {
